@@ -101,6 +101,9 @@ func main() {
 			for _, l := range res.Logs {
 				fmt.Println("  log:", l)
 			}
+			for _, g := range res.Leftover {
+				fmt.Printf("  goroutine left: %s\n", g)
+			}
 			for _, v := range res.Viol {
 				fmt.Printf("violation %s: %s\n", v.Key(), v.Detail)
 			}
